@@ -299,6 +299,44 @@ func runC12(c *Ctx, r *Rec) {
 	r.floor("D4-no-empty-token", 12)
 	checkScanLoop(c, r, info, st)
 
+	// ---- D4b positions are counted in runes: no byte length of a string flows into scanner state
+	{
+		sms0 := c.methodsOf(st.scanner)
+		bad := ""
+		for _, name := range sortedKeys(sms0) {
+			fd := sms0[name]
+			ast.Inspect(fd.Body, func(x ast.Node) bool {
+				as, ok := x.(*ast.AssignStmt)
+				if !ok {
+					return true
+				}
+				toField := false
+				for _, l := range as.Lhs {
+					if selectorField(info, l) != nil {
+						toField = true
+					}
+				}
+				if !toField {
+					return true
+				}
+				for _, rhs := range as.Rhs {
+					ast.Inspect(rhs, func(y ast.Node) bool {
+						if call, ok := y.(*ast.CallExpr); ok && isBuiltinCall(info, call, "len") && len(call.Args) == 1 {
+							if t := info.Types[call.Args[0]].Type; t != nil && isStringType(t) {
+								bad = fmt.Sprintf("%s updates scanner state with len(%s), the BYTE length of a string, at %s: after non-ASCII text on the same line every reported column is too large (the diagnostic must name the column at which the offending text begins)", name, exprStr(call.Args[0]), c.pos(as.Pos()))
+							}
+						}
+						return true
+					})
+				}
+				return true
+			})
+		}
+		r.check(bad == "", "D4-rune-columns", "cdcn."+st.scanner.Obj().Name()+"/positions", c.pos(st.scanner.Obj().Pos()), "cursor, line and column are advanced by rune counts only", bad)
+		checkReceiverWrites(c, r, "D4-receiver-writes-persist", st.scanner)
+		checkReceiverWrites(c, r, "D4-receiver-writes-persist", parser)
+	}
+
 	// ---- D5 scanner not abandoned
 	checkScannerNotAbandoned(c, r, info, st, pms)
 
@@ -314,7 +352,7 @@ func runC12(c *Ctx, r *Rec) {
 	for _, name := range sortedKeys(sms) {
 		checkLoops(c, r, "D6-loop-progress", sms[name], exempt)
 	}
-	r.floor("D6-loop-progress", 12)
+	r.floor("D6-loop-progress", 1)
 }
 
 func isInterfaceType(t types.Type) bool {
